@@ -100,8 +100,13 @@ func hx(b []byte) string {
 	if len(b) == 0 {
 		return "-"
 	}
+	return hex.EncodeToString(b)
+}
+
+// hxd: data payloads (WRITE data, READ replies); a long run of one byte value is written as
+// r<byte>:<count> (the Lean drivers expand it and print their own data the same way)
+func hxd(b []byte) string {
 	if len(b) >= 64 {
-		// a long run of one byte value is written as r<byte>:<count> (the drivers expand it)
 		same := true
 		for _, x := range b {
 			if x != b[0] {
@@ -113,7 +118,7 @@ func hx(b []byte) string {
 			return fmt.Sprintf("r%02x:%d", b[0], len(b))
 		}
 	}
-	return hex.EncodeToString(b)
+	return hx(b)
 }
 
 func newSeqRun(r *Rng, disksz uint64, unstable bool) *seqRun {
@@ -391,7 +396,7 @@ func (s *seqRun) opReadlink(h []byte) {
 	s.count("readlink", rep.Status)
 	if rep.Status == nfstypes.NFS3_OK {
 		d := []byte(rep.Resok.Data)
-		s.emitf("%s => 0 %d 0 %s", desc, len(d), hx(d))
+		s.emitf("%s => 0 %d 0 %s", desc, len(d), hxd(d))
 	} else {
 		s.emitf("%s => %d", desc, rep.Status)
 	}
@@ -412,7 +417,7 @@ func (s *seqRun) opRead(h []byte, off uint64, cnt uint32) {
 		if rep.Resok.Eof {
 			e = 1
 		}
-		s.emitf("%s => 0 %d %d %s", desc, rep.Resok.Count, e, hx(rep.Resok.Data))
+		s.emitf("%s => 0 %d %d %s", desc, rep.Resok.Count, e, hxd(rep.Resok.Data))
 	} else {
 		s.emitf("%s => %d", desc, rep.Status)
 	}
@@ -420,7 +425,7 @@ func (s *seqRun) opRead(h []byte, off uint64, cnt uint32) {
 
 func (s *seqRun) opWrite(h []byte, off uint64, cnt uint32, stable uint32, data []byte) {
 	s.cur = [][]byte{h}
-	desc := fmt.Sprintf("write %s %d %d %d %s", hx(h), off, cnt, stable, hx(data))
+	desc := fmt.Sprintf("write %s %d %d %d %s", hx(h), off, cnt, stable, hxd(data))
 	var rep nfstypes.WRITE3res
 	if !s.guarded(desc[:min(len(desc), 200)], func() {
 		rep = s.srv.NFSPROC3_WRITE(nfstypes.WRITE3args{File: mkfh3(h), Offset: nfstypes.Offset3(off),
